@@ -261,6 +261,10 @@ pub struct Stats {
     pub calls_by_prog_at_sample: Vec<Vec<u64>>,
     pub calls_by_prog: Vec<u64>,
     pub calls_made: u64,
+    /// values whose send call had begun but not returned when the execution ended (torn down)
+    pub inflight_sends: Vec<u64>,
+    /// (stream, start time) of receive calls that had begun but not returned at that moment
+    pub inflight_recvs: Vec<(u32, u64)>,
 }
 
 pub struct TxH {
@@ -374,6 +378,9 @@ impl Ctx {
             op_idx: self.op_idx,
         });
         let t0 = self.tick();
+        if kind.is_recv() {
+            self.sh.lock().stats.inflight_recvs.push((stream, t0));
+        }
         let (r, res) = {
             let _count = crate::mem::Count::on();
             match self.solo_bound() {
@@ -383,6 +390,12 @@ impl Ctx {
         };
         let t1 = self.tick();
         sched().set_activity(Act::default());
+        if kind.is_recv() {
+            let mut l = self.sh.lock();
+            if let Some(p) = l.stats.inflight_recvs.iter().rposition(|x| *x == (stream, t0)) {
+                l.stats.inflight_recvs.swap_remove(p);
+            }
+        }
         self.log_call(Call {
             prog: self.prog,
             op_idx: self.op_idx,
@@ -425,6 +438,7 @@ impl Ctx {
 
     fn do_try_send(&mut self, i: usize, v: Tracked) -> (SendOut, Option<Tracked>) {
         let (hid, orig) = (self.txs[i].id, v.seen());
+        self.sh.lock().stats.inflight_sends.push(orig.id);
         let r = self.call(CallKind::TrySend, hid, u32::MAX, None, move |c| {
             let (out, back) = c.txs[i].tx.try_send(v);
             ((out, back), Res::Send(out, orig.id))
@@ -433,7 +447,15 @@ impl Ctx {
         if r.0 == SendOut::Ok {
             self.accepted_ids.push(orig.id);
         }
+        self.send_finished(orig.id);
         r
+    }
+
+    fn send_finished(&self, id: u64) {
+        let mut l = self.sh.lock();
+        if let Some(p) = l.stats.inflight_sends.iter().rposition(|x| *x == id) {
+            l.stats.inflight_sends.swap_remove(p);
+        }
     }
 
     fn do_start_send(&mut self, i: usize, v: Tracked, by_ref: bool) -> (SendOut, Option<Tracked>) {
@@ -445,6 +467,7 @@ impl Ctx {
         };
         let fut = self.txs[i].tx.is_futures();
         let kind = if fut { CallKind::StartSend } else { CallKind::TrySend };
+        self.sh.lock().stats.inflight_sends.push(orig.id);
         let r = self.call(kind, hid, u32::MAX, None, move |c| {
             let (out, back) = c.txs[i].tx.start_send(v, task, by_ref);
             ((out, back), Res::Send(out, orig.id))
@@ -456,6 +479,7 @@ impl Ctx {
         if r.0 == SendOut::Ok {
             self.accepted_ids.push(orig.id);
         }
+        self.send_finished(orig.id);
         r
     }
 
